@@ -30,12 +30,20 @@ Proof.
   - intros [H | H]; auto. destruct (memz x a) eqn:M; [left; now apply memz_In | right; split; auto].
 Qed.
 
+Lemma sel_rows_In o rows r : In r (sel_rows o rows) <->
+  In r rows /\ match o with None => True | Some ls => In (b_label r) ls end.
+Proof.
+  destruct o as [ls|]; simpl; [|tauto]. rewrite in_flat_map. split.
+  - intros [l [Hl Hr]]. apply filter_In in Hr. destruct Hr as [Hr E]. apply Z.eqb_eq in E. subst. auto.
+  - intros [Hr Hl]. exists (b_label r). split; auto. apply filter_In. split; auto. apply Z.eqb_refl.
+Qed.
+
 (* ------------------------------------------------------------------ which edges the graph has *)
 Definition kept (a : args) (n : net) (x : Z) : Prop := ~ In x (removed a n).
 
 Lemma edge_in_graph_iff a n u v t l w :
   In (mkE u v t l w) (edges a n) <->
-  exists rows r, In (t, rows) (n_tables n) /\ In r rows /\
+  exists rows r, In (t, rows) (n_tables n) /\ In r (sel_rows (f_only (flags_of (a_flags a) t)) rows) /\
     f_include (flags_of (a_flags a) t) = true /\ row_in a n t r = true /\
     u = b_from r /\ v = b_to r /\ l = b_label r /\ w = b_w r /\ kept a n u /\ kept a n v.
 Proof.
@@ -110,12 +118,28 @@ Proof.
   - apply IH; auto. intros x Hx1 Hx2. apply (Hd x); auto.
 Qed.
 
-Lemma keys_table_edges a n tb : NoDup (map b_label (snd tb)) -> NoDup (map key (table_edges a n tb)).
+Lemma sel_rows_NoDup o rows : NoDup (map b_label rows) ->
+  match o with None => True | Some ls => NoDup ls end -> NoDup (map b_label (sel_rows o rows)).
+Proof.
+  intros Hr Ho. destruct o as [ls|]; simpl; auto.
+  induction ls as [|l ls IH]; simpl; [constructor|]. inversion Ho as [|? ? Hnl Hnd]; subst.
+  rewrite map_app. apply NoDup_app_disj.
+  - now apply NoDup_map_filter.
+  - now apply IH.
+  - intros x Hx1 Hx2. apply in_map_iff in Hx1. destruct Hx1 as [r1 [E1 Hf1]]. apply filter_In in Hf1.
+    destruct Hf1 as [_ E]. apply Z.eqb_eq in E. apply in_map_iff in Hx2. destruct Hx2 as [r2 [E2 Hf2]].
+    apply in_flat_map in Hf2. destruct Hf2 as [l2 [Hl2 Hr2]]. apply filter_In in Hr2. destruct Hr2 as [_ E3].
+    apply Z.eqb_eq in E3. apply Hnl. congruence.
+Qed.
+
+Definition selected_rows (a : args) (tb : btable) : list brow := sel_rows (f_only (flags_of (a_flags a) (fst tb))) (snd tb).
+
+Lemma keys_table_edges a n tb : NoDup (map b_label (selected_rows a tb)) -> NoDup (map key (table_edges a n tb)).
 Proof.
   intros H. unfold table_edges. destruct (f_include (flags_of (a_flags a) (fst tb))); [|constructor].
-  rewrite map_map. simpl. unfold key. simpl.
-  assert (E : map (fun x => (fst tb, b_label x)) (filter (row_in a n (fst tb)) (snd tb)) =
-              map (fun l => (fst tb, l)) (map b_label (filter (row_in a n (fst tb)) (snd tb)))) by now rewrite map_map.
+  rewrite map_map. simpl. unfold key. simpl. fold (selected_rows a tb).
+  assert (E : map (fun x => (fst tb, b_label x)) (filter (row_in a n (fst tb)) (selected_rows a tb)) =
+              map (fun l => (fst tb, l)) (map b_label (filter (row_in a n (fst tb)) (selected_rows a tb)))) by now rewrite map_map.
   rewrite E. apply NoDup_map_inj.
   - intros x y Hxy. now inversion Hxy.
   - now apply NoDup_map_filter.
@@ -128,7 +152,7 @@ Proof.
 Qed.
 
 Lemma keys_raw a n tabs :
-  NoDup (map fst tabs) -> (forall tb, In tb tabs -> NoDup (map b_label (snd tb))) ->
+  NoDup (map fst tabs) -> (forall tb, In tb tabs -> NoDup (map b_label (selected_rows a tb))) ->
   NoDup (map key (flat_map (table_edges a n) tabs)).
 Proof.
   induction tabs as [|tb tabs IH]; simpl; intros Hn Hl; [constructor|].
@@ -143,8 +167,13 @@ Qed.
 
 Lemma keys_edges_unique a n :
   NoDup (map fst (n_tables n)) -> (forall tb, In tb (n_tables n) -> NoDup (map b_label (snd tb))) ->
+  (forall t ls, f_only (flags_of (a_flags a) t) = Some ls -> NoDup ls) ->
   NoDup (map key (edges a n)).
-Proof. intros H1 H2. unfold edges. apply NoDup_map_filter. now apply keys_raw. Qed.
+Proof.
+  intros H1 H2 H3. unfold edges. apply NoDup_map_filter. apply keys_raw; auto.
+  intros tb Htb. unfold selected_rows. apply sel_rows_NoDup; auto.
+  destruct (f_only (flags_of (a_flags a) (fst tb))) eqn:E; auto. eapply H3; eauto.
+Qed.
 
 (* ------------------------------------------------------------------ components = reachability classes *)
 Definition adj (es : list edge) (x y : Z) : Prop :=
@@ -273,7 +302,7 @@ Lemma edge_row_not_pi a n u v t l w : In (mkE u v t l w) (edges a n) ->
 Proof.
   intros He. apply edge_in_graph_iff in He.
   destruct He as [rows [r [Ht [Hr [_ [Hrow [-> [-> [-> _]]]]]]]]]. apply row_in_spec in Hrow. destruct Hrow as [Hpi _].
-  exists rows, r. repeat split; auto.
+  apply sel_rows_In in Hr. destruct Hr as [Hr _]. exists rows, r. repeat split; auto.
 Qed.
 
 Lemma edges_join_junctions a n :
